@@ -6,7 +6,7 @@ mentions `to_str`, `push_quoted`, `is_special`, `escape` or `push_usize`: transl
 GeneratedToStr.lean, compile it (module TsScratch.GeneratedToStr), and elaborate a copy of Proofs/C17c.lean in which only the
 import line `import FancyModel.GeneratedToStr` is redirected to it. Nothing under /repo or /verif/lean is written.
 
-usage: rs2lean_tostr_sensitivity.py [--work DIR]      (default /tmp/tssens)
+usage: rs2lean_tostr_sensitivity.py [--work DIR] [--only SUBSTRING-OF-THE-CASE-NAME]      (default /tmp/tssens)
 """
 import glob, os, re, shutil, subprocess, sys
 
@@ -64,6 +64,30 @@ def mutations(src):
            once(src, '                child.to_str(buf, 3);\n', '                // the repeated expression\n\n                child.to_str(buf, /* atom */ 3);\n', 'p'))
     yield ("(control) to_str, Concat: `buf.push(')')` written as `buf.push_str(\")\")` (same meaning)",
            once(src, "                if precedence > 1 {\n                    buf.push(')')\n                }", '                if precedence > 1 {\n                    buf.push_str(")")\n                }', 'q'))
+    # ---- the widened subset
+    isp = '''    match c {
+        '\\\\' | '.' | '+' | '*' | '?' | '(' | ')' | '|' | '[' | ']' | '{' | '}' | '^' | '$'
+        | '#' => true,
+        _ => false,
+    }'''
+    yield ('(refactor, same meaning) is_special written with `matches!` (the same fifteen characters)',
+           once(src, isp, '''    matches!(
+        c,
+        '\\\\' | '.' | '+' | '*' | '?' | '(' | ')' | '|' | '[' | ']' | '{' | '}' | '^' | '$' | '#'
+    )''', 'w1'))
+    yield ('(o) is_special written with `matches!`, `|` forgotten (seeded C17/b)',
+           once(src, isp, '''    matches!(
+        c,
+        '\\\\' | '.' | '+' | '*' | '?' | '(' | ')' | '[' | ']' | '{' | '}' | '^' | '$' | '#'
+    )''', 'w2'))
+    yield ('(refactor, same meaning) escape: the test moved to a new helper `fn is_special_byte(b: u8) -> bool { is_special(b as char) }`',
+           once(once(src, '.filter(|&b| is_special(b as char))', '.filter(|&b| is_special_byte(b))', 'w3'),
+                'fn push_quoted(buf: &mut String, s: &str) {', 'fn is_special_byte(b: u8) -> bool {\n    is_special(b as char)\n}\n\nfn push_quoted(buf: &mut String, s: &str) {', 'w3b'))
+    yield ('(refactor, same meaning) escape: the closure bound to a local first, `let special = |b: &u8| { is_special(*b as char) };` … `.filter(special)`',
+           once(src, '    match text.bytes().filter(|&b| is_special(b as char)).count() {',
+                '    let special = |b: &u8| { is_special(*b as char) };\n    match text.bytes().filter(special).count() {', 'w4'))
+    yield ('(control) escape: the local `n` renamed to `acc` (a name the generated code uses itself: renamed apart; same meaning)',
+           once(once(src, '        n => {\n', '        acc => {\n', 'w5'), 'String::with_capacity(text.len() + n);', 'String::with_capacity(text.len() + acc);', 'w5b'))
     yield ('(rejected?) push_usize written with `to_string()`',
            once(src, '    if x >= 10 {\n        push_usize(s, x / 10);', '    if x >= 10 {\n        s.push_str(&(x / 10).to_string());', 'r'))
 
@@ -99,6 +123,8 @@ def main():
             cases.append((name, None))
             continue
         cases.append((name, {'lib.rs': open(os.path.join(d, 'src', 'lib.rs')).read(), 'vm.rs': open(os.path.join(d, 'src', 'vm.rs')).read()}))
+    if '--only' in sys.argv:
+        cases = cases[:1] + [x for x in cases[1:] if sys.argv[sys.argv.index('--only') + 1] in x[0]]
     base_gen = None
     rows = []
     for i, (name, files) in enumerate(cases):
